@@ -1200,7 +1200,13 @@ func (r *Resolver) answer(ctx context.Context, req, resp *dns.Msg, parentDS []dn
 			if terminalNODATA {
 				middleware.PropagateValidatedNegativeProofResponse(ctx, targetMsg, resp)
 			}
-			resp.Ns = append(resp.Ns, targetMsg.Ns...)
+			// As for the terminal NXDOMAIN above: the outer reply's authority
+			// and additional sections are whatever the outer zone's server
+			// put on the wire (unfiltered for an unsigned zone), so they are
+			// cleared first and only the target's proof is carried.
+			targetAuthority := append([]dns.RR(nil), targetMsg.Ns...)
+			resp = r.clearAdditional(req, resp, extra...)
+			resp.Ns = targetAuthority
 			return resp, nil
 		}
 	}
